@@ -327,6 +327,7 @@ class Config:
         self.prune = True
         self.elapsed = "1"
         self.timed = False
+        self.overrun = 1.0  # timed mode: executions last up to overrun x test_timeout (> 1: tests may hang past their timeout)
         self.elapsed_options: list[str] = []
         self.real_layer = False  # also ask the real states.setup/pool layer whether a test can fetch its states
         self.__dict__.update(kw)
@@ -461,7 +462,7 @@ class Run:
     def duration_of(self, ev: dict[str, Any]) -> Any:
         if not self.config.timed:
             return 0
-        limit = float(ev["params"].get("test_timeout", 3600))
+        limit = float(ev["params"].get("test_timeout", 3600)) * self.config.overrun
         d = z3.Real(self.eng.fresh(f"duration{ev['exec']}"))
         self.eng.assume(z3.And(d > 0, d < z3.RealVal(repr(limit))), check=False)
         ev["duration"] = d
